@@ -41,6 +41,7 @@ import (
 	"go.opentelemetry.io/collector/component/componenttest"
 	"go.opentelemetry.io/collector/config/configretry"
 	"go.opentelemetry.io/collector/consumer/consumererror"
+	"go.opentelemetry.io/collector/exporter/exporterhelper/internal/experr"
 	"go.opentelemetry.io/collector/exporter/exporterhelper/internal/hosttest"
 	"go.opentelemetry.io/collector/exporter/exporterhelper/internal/queuebatch"
 	"go.opentelemetry.io/collector/exporter/exporterhelper/internal/request"
@@ -222,6 +223,7 @@ type vCfg struct {
 	itemsSizer bool // the queue is sized by items instead of requests (always so with sending_queue::batch)
 	faultSize  bool // persistent: the queue-size snapshot cannot be written (persistentQueue.Shutdown returns an error when sized by items)
 	faultClose bool // persistent: client.Close returns an error
+	direct     bool // neither sending queue nor batcher: Send runs the sender chain on the caller's goroutine
 	noqueue    bool // deprecated: WithBatcher without a queue = memory queue, wait_for_result, blocking, one consumer
 	// stress schedules only
 	max      int           // max_size (0 = none)
@@ -487,7 +489,7 @@ func vNewRun(cfg vCfg, st *vStorage, auto bool) (*vRun, error) {
 		opts = append(opts, WithRetry(rcfg))
 	}
 	qcfg.WaitForResult = cfg.wait
-	if cfg.noqueue {
+	if cfg.noqueue || cfg.direct {
 		qcfg.Enabled = false
 	}
 	opts = append(opts, WithQueue(qcfg))
@@ -557,6 +559,28 @@ func (h *vRun) releaseAll() {
 		}
 	}
 	h.mu.Unlock()
+}
+
+// vShutCtx draws the context Shutdown is called with: live, already cancelled, already past its deadline, or
+// live and cancelled while Shutdown is draining (a host that shuts its components down with one bounded
+// context).  The shutdown path of the exporter helper never looks at it, so the model ignores it.
+func vShutCtx(rng *vRand, out *vOut) (ctx context.Context, cancelLater context.CancelFunc, done context.CancelFunc) {
+	switch rng.Pick(45, 25, 15, 15) {
+	case 1:
+		c, cancel := context.WithCancel(context.Background())
+		cancel()
+		out.Stat("shutdown_ctx_already_cancelled", 1)
+		return c, nil, cancel
+	case 2:
+		c, cancel := context.WithDeadline(context.Background(), time.Now().Add(-time.Second))
+		out.Stat("shutdown_ctx_deadline_passed", 1)
+		return c, nil, cancel
+	case 3:
+		c, cancel := context.WithCancel(context.Background())
+		out.Stat("shutdown_ctx_cancelled_during_drain", 1)
+		return c, cancel, cancel
+	}
+	return context.Background(), nil, func() {}
 }
 
 // vFlush writes the buffered output now: an oracle failure must survive a later panic of the (edited) code under test.
@@ -925,8 +949,10 @@ func vSchedule(out *vOut, rng *vRand, nr int, split bool) vSched {
 				out.Stat("shutdown_interrupts_backoff", 1)
 			}
 			h.log(7, nil, 0)
+			sctx, cancelLater, sdone := vShutCtx(rng, out)
+			defer sdone()
 			go func() {
-				if err := h.be.Shutdown(context.Background()); err != nil {
+				if err := h.be.Shutdown(sctx); err != nil {
 					h.log(2, []int{1}, 0) // returned an error
 				} else {
 					h.log(2, nil, 0)
@@ -934,6 +960,9 @@ func vSchedule(out *vOut, rng *vRand, nr int, split bool) vSched {
 			}()
 			shutPhase = len(phases)
 			ok = endPhase("(2, 0, 0)")
+			if cancelLater != nil {
+				cancelLater() // the caller's context ends while Shutdown is (possibly) still draining
+			}
 		case 3:
 			tm := vBatchTimer(h.be)
 			if tm == nil {
@@ -1031,6 +1060,9 @@ func vSchedule(out *vOut, rng *vRand, nr int, split bool) vSched {
 	// ---- direct oracle on the ordered event log ----------------------------------------------------
 	if ok {
 		vOracle(h, cfg, st, acceptedPre, stored, helpers, fail)
+		if helpers != 0 {
+			res.abort = true // goroutines left behind would be seen (and waited for) by every later schedule
+		}
 	}
 	h.releaseAll()
 
@@ -1201,9 +1233,17 @@ func vStress(out *vOut, rng *vRand, nr int) (failed, abort bool) {
 		wg.Wait()
 	}
 	h.log(7, nil, 0)
+	sctx, cancelLater, sdone := vShutCtx(rng, out)
+	defer sdone()
+	if cancelLater != nil {
+		go func() {
+			time.Sleep(time.Duration(200) * time.Microsecond)
+			cancelLater()
+		}()
+	}
 	done := make(chan struct{})
 	go func() {
-		_ = h.be.Shutdown(context.Background())
+		_ = h.be.Shutdown(sctx)
 		h.log(2, nil, 0)
 		close(done)
 	}()
@@ -1248,6 +1288,9 @@ func vStress(out *vOut, rng *vRand, nr int) (failed, abort bool) {
 	}
 	vOracle(h, cfg, st, acceptedPre, stored, helpers, fail)
 	h.releaseAll()
+	if helpers != 0 {
+		return true, true // goroutines left behind would be seen (and waited for) by every later schedule
+	}
 	if cfg.persistent && !failed && len(stored) > 0 {
 		vRestart(out, cfg, st, stored, fail)
 	}
@@ -1265,6 +1308,177 @@ func vStress(out *vOut, rng *vRand, nr int) (failed, abort bool) {
 	if len(stored) > 0 {
 		out.Stat("stress_items_left_in_storage", len(stored))
 	}
+	return failed, false
+}
+
+// vDirect: one gated schedule for an exporter WITHOUT sending queue and batcher (retry_on_failure on or off).
+// Send runs obs-report -> retry -> export on the caller's goroutine (here: one harness goroutine per Send), so
+// Shutdown has nothing to join; what it must do is stop the retry sender: a request waiting in its back-off is
+// released with a shutdown error, and once Shutdown has returned no further export attempt begins and no Send
+// stays parked in the retry sender.  Oracle-only (the LTS models exporters with a queue).
+//
+//	begin-after-return        an export attempt began after Shutdown returned (or after the wrapped exporter's shutdown)
+//	work-after-return         every call answered, yet a Send is still inside the retry sender after Shutdown returned
+func vDirect(out *vOut, rng *vRand, nr int) (failed, abort bool) {
+	cfg := vCfg{direct: true, mode: rng.Pick(15, 45, 25, 15), consumers: 1}
+	st := &vStorage{m: map[string][]byte{}}
+	h, err := vNewRun(cfg, st, false)
+	if err != nil {
+		out.Oracle("harness-setup", "([8], [], ([], 0))", err.Error())
+		return true, false
+	}
+	if h.be.QueueSender != nil {
+		out.Oracle("harness-setup", "([8], [], ([], 0))", "queue-less configuration has a queue sender")
+		return true, false
+	}
+	var script []string
+	fail := func(kind, detail string) {
+		failed = true
+		out.Oracle(kind, "([8], [], ([], 0))", fmt.Sprintf("%s  [no queue, no batcher, retry mode %d, script %s]", detail, cfg.mode, strings.Join(script, " ")))
+		vFlush(out)
+	}
+	step := func(act string) bool {
+		script = append(script, act)
+		if !h.quiesce() {
+			_, _, busy := h.snapshot()
+			fail("shutdown-hangs", "no quiescence within 20 s after "+act+": "+busy)
+			abort = true
+			return false
+		}
+		return true
+	}
+	pending := map[int]bool{} // Sends that have not returned
+	var pmu sync.Mutex
+	send := func(id int) {
+		pmu.Lock()
+		pending[id] = true
+		pmu.Unlock()
+		h.pwg.Add(1)
+		go func() {
+			defer h.pwg.Done()
+			err := h.be.Send(context.Background(), &vReq{ids: []int{id}, items: 1})
+			cls := 0
+			if err != nil {
+				cls = 1
+				if experr.IsShutdownErr(err) {
+					cls = 2
+				}
+			}
+			h.log(8, []int{id}, cls)
+			pmu.Lock()
+			delete(pending, id)
+			pmu.Unlock()
+		}()
+	}
+	nSends := 1 + rng.Intn(4)
+	nextID := 1
+	shutdownCalled := false
+	ok := true
+	for stepNo := 0; ok && stepNo < 200; stepNo++ {
+		h.mu.Lock()
+		returned := h.returned
+		infl := append([]*vCall(nil), h.inflight...)
+		h.mu.Unlock()
+		wSend, wRel, wShut := 0, 0, 0
+		if nextID <= nSends && !shutdownCalled {
+			wSend = 4
+		}
+		if len(infl) > 0 {
+			wRel = 4
+		}
+		if !shutdownCalled {
+			wShut = 1 + stepNo/2
+		}
+		if returned && wRel == 0 {
+			break
+		}
+		if wSend+wRel+wShut == 0 {
+			break // Shutdown called, not returned, nothing in flight: judged below
+		}
+		switch rng.Pick(wSend, wRel, wShut) {
+		case 0:
+			send(nextID)
+			ok = step(fmt.Sprintf("send(%d)", nextID))
+			nextID++
+		case 1:
+			sort.Slice(infl, func(a, b int) bool { return infl[a].ids[0] < infl[b].ids[0] })
+			c := infl[rng.Intn(len(infl))]
+			o := rng.Pick(40, 45, 15)
+			c.gate <- o
+			ok = step(fmt.Sprintf("release(%d,%d)", c.ids[0], o))
+		case 2:
+			shutdownCalled = true
+			pmu.Lock()
+			if len(pending) > len(infl) {
+				out.Stat("direct_shutdown_with_send_in_backoff", 1)
+			}
+			pmu.Unlock()
+			h.log(7, nil, 0)
+			sctx, cancelLater, sdone := vShutCtx(rng, out)
+			defer sdone()
+			go func() {
+				_ = h.be.Shutdown(sctx)
+				h.log(2, nil, 0)
+			}()
+			ok = step("Shutdown")
+			if cancelLater != nil {
+				cancelLater()
+			}
+		}
+	}
+	if !ok {
+		h.releaseAll()
+		return failed, abort
+	}
+	h.mu.Lock()
+	returned := h.returned
+	evs := append([]vEvent(nil), h.events...)
+	h.mu.Unlock()
+	if !returned {
+		_, _, busy := h.snapshot()
+		fail("shutdown-hangs", "Shutdown of an exporter without queue did not return: "+busy)
+		h.releaseAll()
+		return failed, true
+	}
+	retAt, innerAt := -1, -1
+	for k, e := range evs {
+		switch e.kind {
+		case 2:
+			retAt = k
+		case 3:
+			innerAt = k
+		}
+	}
+	if innerAt < 0 || innerAt > retAt {
+		fail("begin-after-return", "wrapped exporter not shut down before Shutdown returned")
+	}
+	for k, e := range evs {
+		if e.kind == 0 && k > retAt {
+			fail("begin-after-return", fmt.Sprintf("export attempt of %v began after Shutdown returned", e.ids))
+		}
+	}
+	pmu.Lock()
+	var still []int
+	for id := range pending {
+		still = append(still, id)
+	}
+	pmu.Unlock()
+	if len(still) > 0 {
+		sort.Ints(still)
+		_, _, busy := h.snapshot()
+		fail("work-after-return", fmt.Sprintf("every export call was answered and Shutdown returned, yet Send of %v has not returned (still in the retry sender): %s", still, busy))
+		h.releaseAll()
+		return failed, true // the parked goroutines stay: later schedules would see them
+	}
+	h.pwg.Wait()
+	if _, helpers, busy := h.snapshot(); helpers != 0 {
+		fail("goroutine-leak", fmt.Sprintf("%d goroutine(s) alive after Shutdown returned: %s", helpers, busy))
+		h.releaseAll()
+		return failed, true
+	}
+	h.releaseAll()
+	out.Stat("direct_schedules", 1)
+	out.Stat(fmt.Sprintf("direct_retry_mode_%d", cfg.mode), 1)
 	return failed, false
 }
 
@@ -1311,6 +1525,18 @@ func TestVerifC03(t *testing.T) {
 			out.Stat("split_schedules_failed", 1)
 		}
 		out.Stat("split_schedules", 1)
+	}
+	// exporters without queue and batcher (oracle-only)
+	drng := vNewRand(3333)
+	for k, nd := 0, vBudget(150, 20); k < nd; k++ {
+		f, abort := vDirect(out, drng, k)
+		if f {
+			out.Stat("direct_failed", 1)
+		}
+		if abort {
+			out.Stat("run_aborted_after_deadline", 1)
+			return
+		}
 	}
 	t1 := time.Now()
 	srng := vNewRand(33)
